@@ -58,6 +58,12 @@ func runC17(c *Check) {
 	n += la.checkGuarded(c, "R17.2", guardRule{pkgPeers, "Manager", []string{"pools"}, "peers.Manager.lock",
 		"pools map is used by validator, header subscription, requests and GC", ctorExempt})
 	c.Floor("R17.2", "guarded field accesses", n, 40)
+	// every lock released on all paths; no blocking wait under a lock
+	for _, f := range la.funcs {
+		la.checkReleasedAtReturns(c, "R17.1", f)
+	}
+	nb := la.checkNoBlockingUnderLock(c, "R17.1", nil)
+	c.Floor("R17.1", "blocking operations in package peers", nb, 1)
 
 	c17TryGet(c)
 	c17NodesAdds(c)
